@@ -3731,10 +3731,11 @@ class AllConnGraph(nx.DiGraph):
                     msg = (f"Value shape {np.squeeze(val).shape} does not match shape "
                            f"{np.squeeze(chain[-1]).shape} of the destination")
             else:
+                # ('...' rather than ':' so that this also works for 0-d arrays)
                 try:
-                    arr[:] = val
+                    arr[...] = val
                 except ValueError:
-                    arr[:] = val.reshape(arr.shape)
+                    arr[...] = val.reshape(arr.shape)
                 return
         except Exception as err:
             msg = str(err)
